@@ -88,7 +88,10 @@ Definition compress_step_sem (env : zenv) (s : compress_step) (st : cstate) : cs
                       s_eff := s_eff st ++ [EOpenW 1 temp_open_create temp_open_create_new temp_open_truncate true] |}
   | ZBuildHeader => st
   | ZWriteHeader => st
-  | ZCopyTemp => {| s_failed := false; s_out := Reg (z_archive env); s_eff := s_eff st ++ [EWrites] |}
+  | ZCopyTemp =>
+      (* header and chunk data are written from offset 0 over whatever the opened file holds *)
+      {| s_failed := false; s_out := Reg (z_archive env ++ dropN (lenN (z_archive env)) (content (s_out st)));
+         s_eff := s_eff st ++ [EWrites] |}
   | ZRemoveTemp => {| s_failed := false; s_out := s_out st; s_eff := s_eff st ++ [EUnlink 1] |}
   | ZPrintInfo => st
   end.
